@@ -140,24 +140,25 @@ theorem gen_floorFix_eq (a b : Int) (h : DivOperands a b) : NumImpl.floorFix a b
   obtain ⟨ha, hb, hb0, ham, _⟩ := h
   obtain ⟨h1, h2, h3, e, habs, hs1, hs2, hqle, hhalf, _⟩ := div_prelude a b ha hb hb0 (fun h => ham h.1)
   unfold NumImpl.floorFix floorFixGo
-  simp only [h1, h2, h3, e, decide_eq_true_eq]
+  simp only [h1, h2, h3, e]
   generalize Int.tmod a b = r at *
   generalize Int.tdiv a b = q at *
   unfold inRange minFix at *
-  by_cases c1 : 0 < b <;> by_cases c2 : r < 0 <;> simp only [c1, c2, if_true, if_false] <;>
-    unfold addFix subFix wrap64 <;> congr 1 <;> omega
+  -- every sign combination; the shape of the adjustment tests does not matter
+  by_cases c1 : 0 < b <;> by_cases c2 : r < 0 <;> by_cases c3 : 0 < r <;> by_cases c4 : b < 0 <;>
+    simp [c1, c2, c3, c4, addFix, subFix, wrap64] <;> omega
 
 theorem gen_ceilingFix_eq (a b : Int) (h : DivOperands a b) : NumImpl.ceilingFix a b = ceilFixGo a b := by
   obtain ⟨ha, hb, hb0, ham, _⟩ := h
   obtain ⟨h1, h2, h3, e, habs, hs1, hs2, hqle, hhalf, _⟩ := div_prelude a b ha hb hb0 (fun h => ham h.1)
   unfold NumImpl.ceilingFix ceilFixGo
-  simp only [h1, h2, h3, e, decide_eq_true_eq]
+  simp only [h1, h2, h3, e]
   generalize Int.tmod a b = r at *
   generalize Int.tdiv a b = q at *
   unfold inRange minFix at *
-  by_cases c1 : 0 < b <;> by_cases c2 : r < 0 <;> by_cases c3 : 0 < r <;>
-    simp only [c1, c2, c3, if_true, if_false] <;>
-    unfold addFix subFix wrap64 <;> congr 1 <;> omega
+  -- every sign combination; the shape of the adjustment tests does not matter
+  by_cases c1 : 0 < b <;> by_cases c2 : r < 0 <;> by_cases c3 : 0 < r <;> by_cases c4 : b < 0 <;>
+    simp [c1, c2, c3, c4, addFix, subFix, wrap64] <;> omega
 
 theorem gen_truncateFix_eq (a b : Int) (h : DivOperands a b) : NumImpl.truncateFix a b = truncFixGo a b := by
   obtain ⟨ha, hb, hb0, ham, _⟩ := h
@@ -487,19 +488,26 @@ theorem gen_lt_chain (a : Rat) (rest : List Rat) : goChain NumImpl.ltBody a rest
   intro t x
   obtain ⟨h1, h2, h3⟩ := cmpRat_spec t x
   unfold NumImpl.ltBody lt
-  by_cases h : t < x
-  · simp [h1.mpr h, h]
-  · have : cmpRat t x ≠ -1 := fun e => h (h1.mp e)
-    simp [this, h]
+  -- the three possible answers of compareReals, whatever test the loop body applies to them
+  rcases lt_trichotomy t x with h | h | h
+  · have e : cmpRat t x = -1 := h1.mpr h
+    simp [e, h]
+  · have e : cmpRat t x = 0 := h2.mpr h
+    subst h; simp [e]
+  · have e : cmpRat t x = 1 := h3.mpr h
+    simp [e, not_lt.mpr (le_of_lt h)]
 
 theorem gen_le_chain (a : Rat) (rest : List Rat) : goChain NumImpl.lteBody a rest = chain le (a :: rest) := by
   apply goChain_eq_chain
   intro t x
   obtain ⟨h1, h2, h3⟩ := cmpRat_spec t x
   unfold NumImpl.lteBody le
+  -- the three possible answers of compareReals, whatever test the loop body applies to them
   rcases lt_trichotomy t x with h | h | h
-  · simp [h1.mpr h, le_of_lt h]
-  · subst h; simp [h2.mpr rfl]
+  · have e : cmpRat t x = -1 := h1.mpr h
+    simp [e, le_of_lt h]
+  · have e : cmpRat t x = 0 := h2.mpr h
+    subst h; simp [e]
   · have e : cmpRat t x = 1 := h3.mpr h
     simp [e, not_le.mpr h]
 
@@ -508,21 +516,28 @@ theorem gen_gt_chain (a : Rat) (rest : List Rat) : goChain NumImpl.gtBody a rest
   intro t x
   obtain ⟨h1, h2, h3⟩ := cmpRat_spec t x
   unfold NumImpl.gtBody gt
-  by_cases h : x < t
-  · simp [h3.mpr h, h]
-  · have : cmpRat t x ≠ 1 := fun e => h (h3.mp e)
-    simp [this, h]
+  -- the three possible answers of compareReals, whatever test the loop body applies to them
+  rcases lt_trichotomy t x with h | h | h
+  · have e : cmpRat t x = -1 := h1.mpr h
+    simp [e, not_lt.mpr (le_of_lt h)]
+  · have e : cmpRat t x = 0 := h2.mpr h
+    subst h; simp [e]
+  · have e : cmpRat t x = 1 := h3.mpr h
+    simp [e, h]
 
 theorem gen_ge_chain (a : Rat) (rest : List Rat) : goChain NumImpl.gteBody a rest = chain ge (a :: rest) := by
   apply goChain_eq_chain
   intro t x
   obtain ⟨h1, h2, h3⟩ := cmpRat_spec t x
   unfold NumImpl.gteBody ge
+  -- the three possible answers of compareReals, whatever test the loop body applies to them
   rcases lt_trichotomy t x with h | h | h
   · have e : cmpRat t x = -1 := h1.mpr h
     simp [e, not_le.mpr h]
-  · subst h; simp [h2.mpr rfl]
-  · simp [h3.mpr h, le_of_lt h]
+  · have e : cmpRat t x = 0 := h2.mpr h
+    subst h; simp [e]
+  · have e : cmpRat t x = 1 := h3.mpr h
+    simp [e, le_of_lt h]
 
 /-- max / min: the loop bodies fold to the spec's maximum / minimum -/
 theorem gen_max_fold (a : Rat) (rest : List Rat) : maxAll (a :: rest) = .ok (rest.foldl NumImpl.maxBody a) := by
